@@ -78,19 +78,58 @@ def unit_c1(tier, kind, dim=0):
                 ck.prove('C1 %s: cost agrees on the boundary' % name, pc, pa['cost'] == pb['cost'], site='mj_constraintUpdate_impl:C1-cost', decode=S.decode(), replay=rp_)
                 ck.prove('C1 %s: force agrees on the boundary' % name, pc, z3.And(*[x == y for x, y in zip(pa['force'], pb['force'])]), site='mj_constraintUpdate_impl:C1-force', decode=S.decode(), replay=rp_)
                 ck.reach('boundary %s non-empty' % name, pc)
-    j0 = S.jar[0]
-    if kind == 'fric':
-        join(LN, Q, lambda p: [j0 == -S.R[0] * S.fl[0]], 'friction linear-negative | quadratic'); join(LP, Q, lambda p: [j0 == S.R[0] * S.fl[0]], 'friction linear-positive | quadratic')
-        covers = z3.Or(*[z3.And(*p['pc'][len(S.pre):]) for p in P])
-        ck.prove('friction zones cover every residual', S.pre, covers, site='mj_constraintUpdate_impl:cover', decode=S.decode())
-    elif kind in ('limit', 'pyr'):
-        join(SAT, Q, lambda p: [j0 == 0], '%s satisfied | quadratic' % kind)
-    elif kind == 'ell':
-        def NT(p):
-            t = list(p['sqrt'].values())[0][0] if p['sqrt'] else None
-            return S.jar[0] * S.mu, t
-        join(SAT, CONE, lambda p: [NT(p)[0] == S.mu * NT(p)[1], NT(p)[1] > 0], 'elliptic top | middle (N = mu T)')
-        join(CONE, Q, lambda p: [S.mu * NT(p)[0] + NT(p)[1] == 0, NT(p)[1] > 0], 'elliptic middle | bottom (mu N + T = 0)')
+    # zone boundaries are taken from the code itself: two paths whose branch decisions agree up to one comparison and differ there are adjacent along
+    # the surface where that comparison holds with equality
+    def relax(c):
+        """closure of a branch condition: strict inequalities become non-strict"""
+        if z3.is_not(c):
+            x = c.arg(0)
+            if z3.is_le(x): return x.arg(0) >= x.arg(1)
+            if z3.is_ge(x): return x.arg(0) <= x.arg(1)
+            if z3.is_lt(x): return x.arg(0) >= x.arg(1)
+            if z3.is_gt(x): return x.arg(0) <= x.arg(1)
+            if z3.is_eq(x): return z3.BoolVal(True)
+            return z3.BoolVal(True)
+        if z3.is_lt(c): return c.arg(0) <= c.arg(1)
+        if z3.is_gt(c): return c.arg(0) >= c.arg(1)
+        return c
+    def split(p):
+        """branch conditions of a path (after the harness precondition), without the sqrt definitions"""
+        sq = {t.get_id() for (t, x) in p['sqrt'].values()}
+        out = []
+        for c in p['pc'][len(S.pre):]:
+            if z3.is_and(c) and c.num_args() == 2 and z3.is_ge(c.arg(0)) and z3.is_const(c.arg(0).arg(0)) and c.arg(0).arg(0).get_id() in sq: continue
+            out.append(z3.simplify(c))
+        return out
+    npairs = 0
+    for ia in range(len(P)):
+        for ib in range(ia + 1, len(P)):
+            pa, pb = P[ia], P[ib]
+            ca, cb = split(pa), split(pb)
+            # identify the two paths' sqrt auxiliaries (same argument => same value)
+            link = []
+            ta = list(pa['sqrt'].values()); tb = list(pb['sqrt'].values())
+            subs = []
+            if ta and tb: link.append(ta[0][0] == tb[0][0]); subs = [(tb[0][0], ta[0][0])]
+            cb_ = [z3.simplify(z3.substitute(c, *subs)) if subs else c for c in cb]
+            k = 0
+            while k < min(len(ca), len(cb_)) and ca[k].eq(cb_[k]): k += 1
+            if k >= min(len(ca), len(cb_)): continue
+            x, y = ca[k], cb_[k]
+            if not (z3.simplify(z3.Not(x)).eq(y) or z3.simplify(z3.Not(y)).eq(x)): continue
+            core = x.arg(0) if z3.is_not(x) else x
+            if not (z3.is_le(core) or z3.is_ge(core) or z3.is_lt(core) or z3.is_gt(core)): continue
+            boundary = core.arg(0) == core.arg(1)
+            pc = S.pre + sqrt_facts(pa) + sqrt_facts(pb) + link + ca[:k] + [boundary] + [relax(c) for c in ca[k + 1:]] + [relax(c) for c in cb[k + 1:]]
+            name = 'zones %s | %s along %s' % (pa['state'][0], pb['state'][0], z3.simplify(boundary).sexpr().replace('\n', ' ')[:60])
+            rp_ = c1_replay(pa, pb)
+            ck.prove('C1 %s: cost agrees on the boundary' % name, pc, pa['cost'] == pb['cost'], site='mj_constraintUpdate_impl:C1-cost', decode=S.decode(), replay=rp_)
+            ck.prove('C1 %s: force agrees on the boundary' % name, pc, z3.And(*[u == v for u, v in zip(pa['force'], pb['force'])]), site='mj_constraintUpdate_impl:C1-force', decode=S.decode(), replay=rp_)
+            npairs += 1
+    if len(P) > 1 and npairs == 0: ck.error('no adjacent zone pair identified')
+    covers = z3.Or(*[z3.And(*split(p)) if split(p) else z3.BoolVal(True) for p in P])
+    ck.prove('%s zones cover every residual' % kind, S.pre + [f for p in P for f in sqrt_facts(p)] + [list(pa_['sqrt'].values())[0][0] == list(P[0]['sqrt'].values())[0][0] for pa_ in P if pa_['sqrt'] and P[0]['sqrt']], covers,
+             site='mj_constraintUpdate_impl:cover', decode=S.decode())
     ck.notes.append('zones: %s' % sorted(by))
     return ck
 
